@@ -50,6 +50,7 @@ static void body(mvprog::PT& p) {
     for (size_t i = 0; i < p.ops.size(); i++) {
         char op = p.ops[i];
         if (op == 'y') { thread_yield(); continue; }
+        if (op == 'p') { int npad = pmc_choose(3, PMC_PROG, 0, "pad yields"); for (int kk = 0; kk < npad; kk++) thread_yield(); continue; }   // every arrival order on one vCPU
         if (op == 't') { thread_usleep(150); continue; }
         if (op == 'e') { G->oc->expire(); continue; }
         int k = p.ops[++i] - '0';
@@ -120,6 +121,9 @@ static const PmcConfig CFG[] = {
     {"a0r0,a0R0|a0r0te",   2, {1,2}, {0,0}, {0,0}, {0,0}, ""},
     {"a0r0|a0r0|a0R0",     2, {1,2}, {0,0}, {0,0}, {0,0}, "three vCPUs"},
     {"a0r0,s0r0,a0R0",     3, {0,0}, {0,0}, {0,0}, {0,0}, "one vCPU"},
+    {"pa0pr0,ps0pr0,pa0pR0", 3, {0,0}, {0,0}, {0,0}, {0,0}, "one vCPU, every arrival order"},
+    {"pa0pr0t,pa0pr0,pepa0r0", 3, {0,0}, {0,0}, {0,0}, {0,0}, "one vCPU: expiry vs re-acquire"},
+    {"pf0r0,pa0pr0,ps0r0",   3, {0,0}, {0,0}, {0,0}, {0,0}, "one vCPU: failing / slow / ok constructors"},
 };
 const PmcConfig* pmc_configs(int* n) { *n = sizeof CFG / sizeof CFG[0]; return CFG; }
 const char* pmc_property(void) { return "C19"; }
